@@ -44,7 +44,7 @@ theorem gen_osap_parse_empty (grow : Nat → Nat → Nat) (fuel : Nat)
     unfold Slice.slice
     simp [Slice.cap]
   unfold blockNO at h
-  unfold optSuffixArrayParser_Parse
+  unfold optSuffixArrayParser_Parse optSuffixArrayParser_Parse_nilable; simp only [Bool.false_eq_true]
   by_cases hgt : (Int.ofNat s.ParserBuffer.Data.len) - s.ParserBuffer.W > s.OSAPConfig.BlockSize
   · have hB : s.OSAPConfig.BlockSize = 0 := by simpa only [hgt, if_true] using h
     have hge : (Int.ofNat s.ParserBuffer.Data.len) - s.ParserBuffer.W ≥ s.OSAPConfig.BlockSize := by omega
@@ -308,7 +308,7 @@ theorem gen_osap_parse_sp (B : Nat) (grow : Nat → Nat → Nat) (fuel : Nat)
       { Sequences := [], Literals := Slice.append grow { arr := blk.Literals.arr, len := 0 }
           ((s.ParserBuffer.Data.arr.drop Wn).take nN) }, ?_, ?_, Or.inl rfl, rfl, ?_,
       swf_append grow _ (Nat.zero_le _) _, parseOKO_withW B s s1 h hprep _ (by omega) hLlen⟩
-    · unfold optSuffixArrayParser_Parse
+    · unfold optSuffixArrayParser_Parse optSuffixArrayParser_Parse_nilable; simp only [Bool.false_eq_true]
       simp only [if_false]
       simp only [hnG, hnG']
       rw [hs0, bind_ok, if_neg hn0]
@@ -381,7 +381,7 @@ theorem gen_osap_parse_sp (B : Nat) (grow : Nat → Nat → Nat) (fuel : Nat)
              Literals := Slice.append grow blk2.Literals
                ((s.ParserBuffer.Data.arr.take (Wn + nN)).drop li2.toNat) } : Block'),
           Int.ofNat (Wn + nN) - s1.ParserBuffer.W, Gen.Err.ok) := by
-      unfold optSuffixArrayParser_Parse
+      unfold optSuffixArrayParser_Parse optSuffixArrayParser_Parse_nilable; simp only [Bool.false_eq_true]
       simp only [if_false]
       simp only [hnG, hnG']
       rw [hs0, bind_ok, if_neg hn0]
